@@ -77,7 +77,13 @@ claim("C18", "model_checking",
       "For every enumerated document that the library itself accepts (hook timeouts within 0..2^32-1) the TLA+ oracle over the shipped schema files must say valid, every builtin-schema entry point must accept it, and with the builtin schema installed as Spec validator WriteSpec (.json and .yaml), ReadSpec, Refresh and ValidateFile of the written files must all succeed.",
       SCHEMA_NOTE + " Library-valid = WriteSpec without validator succeeds.", "TLA+ schema oracle + library admission as generator filter; round trips with the schema installed as validator", "5 C18", "schema")
 
+claim("C19", "model_checking",
+      "The CLI is treated as a second implementation of the query actions of the CacheSeq model: for a seeded sample of the populations TLC enumerates, the built cdi binary is run (devices, vendors, classes, specs, validate, inject in both output formats) and its listings, files in error, exit status and injected OCI spec are compared with the library configured the same way and with the model's device list; the validate binary's exit status is compared with schema validation for sampled documents and three schema choices, via file argument and stdin.",
+      "Trusted: the regular expressions parsing the tools' output, the library as reference for the listing comparison (itself bound to the model by C01). monitor/resolve not exercised. Sampled, not exhaustive.",
+      "TLC-enumerated populations (CacheSeq) replayed through the built cdi/validate binaries and the library side by side", "5 C19", "cli")
+
 ENGINES = [
+ {"name": "cli", "path": "harness/cli.go spec/CacheSeq.tla", "serves_properties": ["C19"], "kind_free_text": "built binaries run on model-enumerated populations; stdout/exit status vs library vs model"},
  {"name": "schema", "path": "tools/schema2tla.py spec/Schema.tla harness/schemaoracle.go", "serves_properties": ["C17", "C18"],
   "kind_free_text": "draft-07 subset evaluator in TLA+ over a module generated from the shipped schema files; documents by JSON mutation; all validator entry points"},
  {"name": "cacheauto", "path": "spec/CacheAuto.tla harness/autoreplay.go harness/reconf.go", "serves_properties": ["C11", "C20", "C01"],
